@@ -96,7 +96,7 @@ def gen_names(rng, n, p_named=0.35):
     if n == 0 or rng.random() > p_named:
         return None
     pool = rng.sample(NAMEPOOL, len(NAMEPOOL))
-    names = [pool[i] if rng.random() < 0.8 else None for i in range(n)]
+    names = [pool[i] if (i < len(pool) and rng.random() < 0.8) else None for i in range(n)]
     if all(x is None for x in names):
         names[0] = pool[0]
     return names
@@ -217,6 +217,10 @@ def gen_op(rng, state):
     """state: skeleton of the current root"""
     if rng.random() < 0.07:
         return gen_update(rng, state)
+    if rng.random() < 0.05:
+        # auto_batch_size_ on the root (through a nested handle it may cut a child's batch size below its parent's:
+        # the documented exclusion)
+        return ["auto", (), rng.choice([None, None, 0, 1, 2, 3])]
     nodes = nodes_of(state)
     h, node = ((), state) if rng.random() < 0.55 else rng.choice(nodes)
     h = tuple(h)
@@ -408,6 +412,8 @@ def apply_impl(td, op, tlimit=10.0):
                 node.setdefault(tuple(op[2]), op[4])
             elif kind == "refine":
                 node.refine_names(*op[2])
+            elif kind == "auto":
+                node.auto_batch_size_(op[2])
             elif kind == "update":
                 node.update({tuple(k): build_pv(v) for k, v in op[2]})
             else:
@@ -469,6 +475,8 @@ def sx_op(op):
         return f"(setdefault {sx_path(op[1])} {sx_path(op[2])} {sx_tree(op[3])})"
     if k == "refine":
         return f"(refine {sx_path(op[1])} {sx_names(op[2])})"
+    if k == "auto":
+        return f"(auto {sx_path(op[1])} {'none' if op[2] is None else int(op[2])})"
     if k == "update":
         return f"(update {sx_path(op[1])}" + "".join(f" ({sx_path(kk)} {sx_pv(v)})" for kk, v in op[2]) + ")"
     raise AssertionError(k)
